@@ -544,6 +544,7 @@ pub fn explore(
         }
         if tr.anomalies.iter().any(|a| matches!(a, Anomaly::PrefixDivergence(_))) {
             stats.divergences += 1;
+            eprintln!("DIVERGENCE in {} replaying prefix {:?}: {:?}", cfg.name, prefix, tr.anomalies);
             continue;
         }
         let sched = tr.schedule();
